@@ -438,6 +438,60 @@ VFloatSem(nm, rec, k) ==
 
 IsFloatArith(nm) == nm \in F32Names \cup F64Names \cup CvtNames
 
+\* ------------------------------------------------------------ packed binary32 (CDNA3 VOP3P: v_pk_fma/mul/add_f32)
+\* Each 64-bit source holds two binary32 values (low dword, high dword).  OP_SEL[i] says which of them source i
+\* contributes to the LOW result, OP_SEL_HI[i] which one to the HIGH result; NEG[i] negates source i of the low
+\* result, NEG_HI[i] (bits 10:8, where VOP3a has ABS) source i of the high result.  Bit positions as assembled by
+\* LLVM (op_sel_hi[0] = bit 59, [1] = bit 60, [2] = bit 14; the field table of the CDNA3 manual lists them in the
+\* opposite order).  An inline constant is a 32-bit constant: its value in the low dword, high dword 0 (an inline
+\* float is NOT a double here); negative inline integers are outside the domain generated.
+PkNames == {"v_pk_fma_f32", "v_pk_mul_f32", "v_pk_add_f32"}
+PkSrc(o, st, k) == IF o.c >= 256 THEN SubSeq(o.r[k], 1, 4)
+                   ELSE IF o.c \in 240..248 THEN F32Const(o.c) \o Z32
+                   ELSE IF o.c \in 128..192 THEN FromInt(InlineInt(o.c), 2) \o Z32
+                   ELSE S64(o, st)
+VPkSem(nm, rec, k) ==
+  LET st == rec.pre
+      F  == Fmt32
+      in(i, key, hi) == LET w  == PkSrc(rec[key], st, k)
+                            h  == IF Bit(<<IF hi THEN rec.opselhi ELSE rec.opsel>>, i) = 1 THEN Hi32(w) ELSE Lo32(w)
+                        IN IF Bit(<<IF hi THEN rec.abs ELSE rec.neg>>, i) = 1 THEN F32Neg(h) ELSE h
+      half(hi) == LET a == in(0, "s0", hi)
+                      b == in(1, "s1", hi)
+                  IN CASE nm = "v_pk_add_f32" -> FR32(FAdd(F, a, b), {a, b})
+                       [] nm = "v_pk_mul_f32" -> FR32(FMul(F, a, b), {a, b})
+                       [] nm = "v_pk_fma_f32" -> LET c == in(2, "s2", hi) IN FR32(FFma(F, a, b, c), {a, b, c})
+      lo == half(FALSE)
+      hh == half(TRUE)
+  IN [d |-> lo.d \o hh.d, cc |-> 0, pk |-> <<lo, hh>>]
+
+\* ------------------------------------------------------------ VOP3 output modifiers
+\* CLAMP = 1 on an instruction with a float result saturates the result to [0.0, 1.0] (-0 and negative values
+\* give +0; the sign of a zero result is not constrained).  A NaN result becomes +0 when MODE.DX10_CLAMP is set
+\* and stays a NaN otherwise; the simulator does not model MODE, so both are accepted.
+\* OMOD # 0 multiplies the result by 2, 4 or 0.5 unless MODE.IEEE / output denormals are on (then it is ignored):
+\* the value of an active lane is not constrained, everything else (inactive lanes, frame, flags, no panic) is.
+F32One == <<0, 16256>>
+F64One == <<0, 0, 0, 16368>>
+Clamp32(w) == IF F32Sign(w) = 1 THEN Z32 ELSE IF F32Mag(w) > F32Mag(F32One) THEN F32One ELSE w
+Clamp64(w) == IF F64Sign(w) = 1 THEN Z64 ELSE IF Ult(F64One, w) THEN F64One ELSE w
+ClampLane(r, is64) ==
+  LET isnan == (Has(r, "nan") /\ r.nan) \/ (Has(r, "nan64") /\ r.nan64)
+      skip  == Has(r, "skip") /\ r.skip
+      cl(w) == IF is64 THEN Clamp64(w) ELSE Clamp32(w)
+      zw    == IF is64 THEN Z64 ELSE Z32
+  IN IF skip THEN r
+     ELSE IF isnan THEN [d |-> zw, cc |-> r.cc, nan |-> ~is64, nan64 |-> is64, zero |-> ~is64, zero64 |-> is64]
+     ELSE [d |-> cl(r.d), cc |-> r.cc, zero |-> ~is64, zero64 |-> is64,
+           alt |-> IF Has(r, "alt") THEN cl(r.alt) ELSE cl(r.d)]
+ModifiedLane(nm, rec, r) ==
+  LET is64 == nm \in F64Names
+      fl   == nm \in F32Names \cup F64Names \/ IsFSel(nm)
+  IN IF ~fl \/ rec.f # "VOP3a" \/ ~Has(rec, "clamp") THEN r
+     ELSE IF rec.omod # 0 THEN [d |-> r.d, cc |-> r.cc, skip |-> TRUE]
+     ELSE IF rec.clamp = 1 THEN ClampLane(r, is64)
+     ELSE r
+
 \* which instructions the specification has an exact reference for (everything else is only
 \* constrained lane-wise, see ISATrace)
 IntNames == {"v_mov_b32", "v_mov_b64", "v_not_b32", "v_bfrev_b32", "v_ffbh_u32", "v_cndmask_b32", "v_mul_i32_i24",
